@@ -41,9 +41,18 @@ def _alarm(signum, frame):
 signal.signal(signal.SIGALRM, _alarm)
 
 
+def _load_factor():
+    """wall-clock limits are meant for an idle machine: stretch them when the run queue is longer than the core count,
+    so that a slow machine does not turn into spurious time-outs (never below 1, at most 8)"""
+    try:
+        return min(8.0, max(1.0, 1.5 * os.getloadavg()[0] / (os.cpu_count() or 1)))
+    except Exception:
+        return 1.0
+
+
 def call(f, *a, _t=5.0, **k):
     """Run f under a wall-clock limit (many bct loops never terminate outside their domain)."""
-    signal.setitimer(signal.ITIMER_REAL, _t)
+    signal.setitimer(signal.ITIMER_REAL, _t * _load_factor())
     try:
         return f(*a, **k)
     finally:
@@ -854,8 +863,8 @@ def _wrap_variant(name, f):
         ctx.count('variant:' + kind)
         ctx.count('variant_fn:' + name)
         # generators passed as seed: remembered so that a call that raises can be repeated on the arguments as given
-        rngs = [(x, x.get_state(), len(x.log) if isinstance(getattr(x, 'log', None), list) else None)
-                for x in list(a) + list(k.values()) if isinstance(x, np.random.RandomState)]
+        rngs = [(x, x.get_state(), {q: (list(v) if isinstance(v, list) else v) for q, v in getattr(x, '__dict__', {}).items()})
+                for x in list(a) + list(k.values()) if isinstance(x, np.random.RandomState)]      # (Rec.log, a scripted stream, ...)
         glob = np.random.get_state()
         hooks = getattr(sys.modules.get('bct.utils._verif'), 'LOG', None)      # observation hooks of the instrumented routines
         nhooks = len(hooks) if isinstance(hooks, list) else None
@@ -877,10 +886,13 @@ def _wrap_variant(name, f):
             del hooks[nhooks:]
         for cleanup in list(st['retry']):
             cleanup()
-        for x, state, nlog in rngs:
+        for x, state, attrs in rngs:
             x.set_state(state)
-            if nlog is not None:
-                del x.log[nlog:]
+            for q, v in attrs.items():
+                if isinstance(v, list) and isinstance(getattr(x, q, None), list):
+                    getattr(x, q)[:] = v
+                else:
+                    setattr(x, q, v)
         res = f(*a, **k)               # raises as well -> the harness sees what it would have seen without the layer
         ctx.last_variant = info
         ctx.fail('%s:raises-for-representation' % name, '%s raises %s: %s when the argument(s) %s hold the same values as %s; it returns normally on the float64 arrays' % (
